@@ -753,7 +753,9 @@ func (c *Conn) writev(in [][]byte) (int, error) {
 		n := nwrite
 		onWrittenSize := c.p.g.onWrittenSize
 		if n < size {
-			for i := 0; i < len(in) && n > 0; i++ {
+			// partial write: cache everything that was not written,
+			// including the buffers after the partially written one.
+			for i := 0; i < len(in); i++ {
 				b := in[i]
 				if n == 0 {
 					c.newToWriteBuf(b)
@@ -774,6 +776,8 @@ func (c *Conn) writev(in [][]byte) (int, error) {
 					}
 				}
 			}
+			// the whole input has been written or cached.
+			return size, nil
 		}
 	} else {
 		nwrite = 0
